@@ -1703,6 +1703,177 @@ pub fn e4_single(ctx: &Ctx, name: &str, lens: &[u16], dists: &[u16], st: &mut Lo
     e.exhaustive = true;
 }
 
+/// 4-grams x0 x1 x2 x3 over letters and digits whose two trigrams differ but collide under zlib's rotating hash
+/// ((a << 10) ^ (b << 5) ^ c) & 0x7fff: every 97th of the 900 that exist, plus the first
+pub fn adjacent_hash_collisions() -> Vec<[u8; 4]> {
+    let al: Vec<u8> = (b'a'..=b'z').chain(b'A'..=b'Z').chain(b'0'..=b'9').collect();
+    let h = |a: u8, b: u8, c: u8| ((((a & 0x1f) as u32) << 10) ^ ((b as u32) << 5) ^ c as u32) & 0x7fff;
+    let mut all = Vec::new();
+    for &x0 in &al {
+        for &x1 in &al {
+            for &x2 in &al {
+                for &x3 in &al {
+                    if (x0, x1, x2) != (x1, x2, x3) && h(x0, x1, x2) == h(x1, x2, x3) {
+                        all.push([x0, x1, x2, x3]);
+                    }
+                }
+            }
+        }
+    }
+    all.into_iter().step_by(97).collect()
+}
+
+/// E6chain: plaintexts in which, at one position p, zlib's lazy look-ahead at p + 1 meets a hash chain holding
+/// n short candidates in front of one long candidate, with n swept across the chain budget (max_chain) of the
+/// level in use; with and without a hash collision between the trigrams at p and p + 1. Compressed by real zlib.
+pub fn e6_chainspace(ctx: &Ctx, name: &str, st: &mut Local, f: Sink) {
+    if !ctx.engine_on(name) {
+        return;
+    }
+    let mut grams: Vec<[u8; 4]> = adjacent_hash_collisions();
+    if ctx.quick() {
+        grams.truncate(3);
+    }
+    grams.push(*b"k2m7"); // control: no collision
+    // (level, max_chain)
+    let levels: Vec<(i32, usize)> = if ctx.quick() { vec![(4, 16), (5, 32)] } else { vec![(4, 16), (5, 32), (6, 128), (7, 256), (8, 1024), (9, 4096)] };
+    let filler = {
+        let mut v = text_family(8, 24_000);
+        v.extend_from_slice(&text_family(1, 8000));
+        v
+    };
+    let mut idx = 0u64;
+    let mut total = 0;
+    for g in &grams {
+        for &(level, chain) in &levels {
+            let ns: Vec<usize> = if chain <= 32 && !ctx.quick() {
+                (0..=chain + 4).collect()
+            } else {
+                let mut v: Vec<usize> = (chain.saturating_sub(5)..=chain + 2).collect();
+                v.extend((chain / 4).saturating_sub(3)..=chain / 4 + 1);
+                v.sort();
+                v.dedup();
+                v
+            };
+            for n in ns {
+                let i = idx;
+                idx += 1;
+                total += 1;
+                if ctx.sel.mine(i) {
+                    let e = st.eng(name);
+                    e.states += 1;
+                    e.transitions += 1;
+                    e.nontrivial += 1;
+                }
+                if !ctx.take(name, i) {
+                    continue;
+                }
+                let k = &g[1..4];
+                let pstr = &g[0..3];
+                let mut t: Vec<u8> = Vec::new();
+                t.push(b'#');
+                t.extend_from_slice(k);
+                t.extend_from_slice(b"-cache\n");
+                for j in 0..n {
+                    t.push(b'#');
+                    t.extend_from_slice(k);
+                    t.push(b'A' + (j % 26) as u8);
+                    if j >= 26 {
+                        t.push(b'a' + ((j / 26) % 26) as u8);
+                    }
+                    if j >= 676 {
+                        t.push(b'0' + ((j / 676) % 10) as u8);
+                    }
+                    t.push(b'\n');
+                }
+                t.push(b'=');
+                t.extend_from_slice(pstr);
+                t.extend_from_slice(b"x\n+");
+                t.push(g[0]);
+                t.extend_from_slice(k);
+                t.extend_from_slice(b"-cache\n");
+                t.extend_from_slice(&filler);
+                let c = Comp::Zlib(level, 0, 15, 8);
+                let bytes = match c.run(&t) {
+                    Some(b) => b,
+                    None => continue,
+                };
+                let case = StreamCase { stream_len: bytes.len(), bytes, plain: Some(t), descr: format!("chain template {:?} n {} via {}", std::str::from_utf8(g).unwrap_or("?"), n, c.describe()) };
+                validate_model(&case);
+                st.sample(name, || format!("#{} {} ({} bytes)", i, case.descr, case.bytes.len()));
+                ctx.begin(name, i, limit_for(case.bytes.len() * 4));
+                f(st, name, i, &case);
+                ctx.end();
+            }
+        }
+    }
+    let e = st.eng(name);
+    e.bound = format!("{} streams: {} templates (adjacent-trigram hash collisions + 1 control) x zlib levels {:?} x n short chain candidates around max_chain and max_chain / 4 (all n in 0..=max_chain + 4 for levels 4 and 5 in the thorough tier)", total, grams.len(), levels.iter().map(|l| l.0).collect::<Vec<_>>());
+    e.exhaustive = true;
+}
+
+/// E4run: one reference at distance d into a long periodic run (period 1, 2 or 3): every earlier position of
+/// the run is a hash-chain candidate, so the chain depth needed to find the reference grows with d
+pub fn e4_runs(ctx: &Ctx, name: &str, st: &mut Local, f: Sink) {
+    if !ctx.engine_on(name) {
+        return;
+    }
+    let mut bounds: Vec<u32> = (1..=40).collect();
+    for k in 1..=15u32 {
+        for d in [(1u32 << k) - 1, 1 << k, (1 << k) + 1] {
+            bounds.push(d);
+        }
+    }
+    bounds.extend([4098, 4099, 8194, 8195, 8196, 8197, 8198, 16386, 32768 - 263, 32768 - 262, 32768 - 261, 32766]);
+    bounds.retain(|d| (1..=32768).contains(d));
+    bounds.sort();
+    bounds.dedup();
+    let all: Vec<u32> = (1..=32768).collect();
+    // (period, length, distances)
+    let mut specs: Vec<(u16, u16, &Vec<u32>)> = vec![(1, 3, &bounds), (1, 258, &bounds), (2, 3, &bounds), (3, 4, &bounds), (2, 258, &bounds)];
+    if !ctx.quick() {
+        specs[0] = (1, 3, &all);
+        specs.push((1, 4, &all));
+    }
+    let mut idx = 0u64;
+    let mut n = 0;
+    for (period, len, dists) in &specs {
+        for &d in dists.iter() {
+            if d % *period as u32 != 0 {
+                continue;
+            }
+            let i = idx;
+            idx += 1;
+            n += 1;
+            if ctx.sel.mine(i) {
+                let e = st.eng(name);
+                e.states += 1;
+                e.transitions += 1;
+                e.nontrivial += 1;
+            }
+            if !ctx.take(name, i) {
+                continue;
+            }
+            let mut toks: Vec<Tok> = (0..*period).map(|k| Tok::Lit(b'a' + k as u8)).collect();
+            let mut have = *period as u32;
+            while have < d + 2 {
+                toks.push(Tok::Ref { len: 258, dist: *period, irr: false });
+                have += 258;
+            }
+            toks.push(Tok::Ref { len: *len, dist: d as u16, irr: false });
+            toks.push(Tok::Lit(b'x'));
+            toks.push(Tok::Lit(b'y'));
+            let s = Stream { blocks: vec![Block::Fixed { toks }], final_pad: 0 };
+            let bytes = serialise(&s);
+            let case = StreamCase { stream_len: bytes.len(), bytes, plain: Some(plaintext(&s)), descr: format!("run of period {} then one reference len {} dist {}", period, len, d) };
+            deliver(ctx, name, st, i, case, f);
+        }
+    }
+    let e = st.eng(name);
+    e.bound = format!("{} streams: a run of period 1, 2 or 3 built from (258, period) references, then one reference (len 3 / 4 / 258) at distance d; d = 1..=40, 2^k and 2^k +- 1, 4096/8192-region and window-262 boundaries{}", n, if ctx.quick() { "" } else { "; every d in 1..=32768 for period 1 with len 3 and len 4" });
+    e.exhaustive = true;
+}
+
 /// E2s: multi-block streams in which later blocks reference bytes of earlier stored / huffman blocks
 pub fn e2_crossblock(ctx: &Ctx, name: &str, st: &mut Local, f: Sink) {
     if !ctx.engine_on(name) {
